@@ -35,8 +35,10 @@ CHECKS = {
             "Reads: every C01 sweep expression and random compositions are evaluated by ctx.get() and by a combinational "
             "signal in the same simulation, both compared with the reference value. Writes: random nested targets over "
             "undriven signals and memory rows are written by ctx.set(), by the equivalent clocked assignment statement and "
-            "in the reference per-bit model; the whole state must agree after every write. Shape-castable signals "
-            "(struct layouts with enum fields) round-trip through from_bits/const.",
+            "in the reference per-bit model (targets may name a signal twice; the later part decides); the whole state must "
+            "agree after every write. Shape-castable signals (struct layouts with enum fields, signed enumerations, enumeration-"
+            "shaped memory rows) round-trip through from_bits/const. Array proxies with signed, too narrow or too wide "
+            "indices are read and written from the testbench and by a circuit and must agree.",
             "Reference per-bit assignment model (vlib/refsem.py lhs_map/assign_bits). Memory rows are registers in the circuit variant.",
             "DESIGN.md §4 C05"),
     "C10": ("exploration",
@@ -175,14 +177,16 @@ CHECKS = {
             "simulator's sets by an ordered subclass and replays each generated simulation under insertion, reversed, "
             "rotating and per-iteration shuffled orders, demanding identical observation logs and final state. Exact wake-up "
             "times (phases, half-periods, delays), pre-edge sampling across coincident domains, ctx.get-after-ctx.set "
-            "settling, testbench add-order and the guide's process replacements are checked against models.",
+            "settling, testbench add-order, hand-off between testbenches (an observer wakes in the instant another testbench "
+            "writes, for every add order) and the guide's process replacements are checked against models.",
             "vlib/simorder.py rebinding of `set` (checked at run time); timeline model and scripts in vchecks/c08.py; "
             "delays never expire on a toggle instant.",
             "DESIGN.md §4 C08"),
     "C11": ("exploration",
             "Hypothesis-generated memory configurations and port/clock/row-access event sequences, differential against an "
             "array-of-rows model with per-bit unspecified masks",
-            "All row shapes, depths (0, 1, non-powers of two), port sets, transparency sets and granularities are generated "
+            "All row shapes (incl. Struct classes whose defaults fill unlisted rows), depths (0, 1, non-powers of two), port sets, "
+            "transparency sets and granularities are generated "
             "with collision-biased addresses; every read port and every row is compared with the model after every event, "
             "including coincident edges of two domains and direct row access from the testbench.",
             "Model in vchecks/c11.py; reset-less domains; simulator process order pinned (vlib/simorder.py). A second part "
@@ -195,8 +199,9 @@ CHECKS = {
             "wrapper/domain model",
             "Each generated design has up to five modules, each with its own generated program in two locally named "
             "domains, FSMs, reset-less registers, a signal split between domains, ClockSignal/ResetSignal observers and "
-            "optionally a memory; wrappers are stacked and nested arbitrarily. The schedule toggles arbitrary subsets of "
-            "three clocks in one instant (pos/neg edge, sync/async/no reset) and changes resets, controls and inputs in "
+            "optionally a memory; wrappers are stacked and nested arbitrarily, and a module may define a clock domain of its "
+            "own that shadows the inherited one for itself and its descendants. The schedule toggles arbitrary subsets of "
+            "the clocks in one instant (pos/neg edge, sync/async/no reset) and changes resets, controls and inputs in "
             "between. Every register, FSM state, split chunk, memory row, read port and observer is compared after every "
             "event with a model that applies wrappers from the innermost outwards and the domain's own reset last.",
             "vlib/refsem.py Interp + wrapper model in vchecks/c03.py. Read-port output after the domain's own reset is not judged.",
@@ -208,10 +213,12 @@ CHECKS = {
             "archive() calls and extract()",
             "The oracle is equality of outputs that must not depend on an uncontrolled factor. Designs are biased to what "
             "makes ordering matter (several implicitly created domains whose names hash in different orders, name clashes, "
-            "anonymous submodules, attribute-carrying aliases, instances with late-bound clock signals, memories); the same "
+            "anonymous submodules, attribute-carrying aliases, instances with late-bound clock signals, memories, components "
+            "that keep an Instance, a low-level memory or a ClockDomain object between elaborations); the same "
             "descriptor is built and converted in separate interpreters with 4 (quick) / 12 (thorough) hash seeds and three "
             "times in each. Simulation histories reuse C08's generator; plans reuse C19's.",
-            "vlib/d09.py runs in the child interpreters; children import the working tree under test.",
+            "vlib/d09.py runs in the child interpreters; children import the working tree under test. One listed known finding "
+            "(known_findings.json: renamer-renames-kept-clock-domain) is printed as KNOWN-FINDING and does not fail the check.",
             "DESIGN.md §4 C09"),
     "C04": ("translation_validation",
             "differential testing of Hypothesis-generated hierarchical designs: emitted RTLIL parsed and executed by an "
@@ -229,15 +236,18 @@ CHECKS = {
             "Trusted base: vlib/rtlil_read.py, vlib/rtlil_eval.py (Yosys cell library semantics). $print/$check not executed.",
             "DESIGN.md §3, §4 C04"),
     "C07": ("exploration",
-            "Hypothesis-generated hierarchies built to stress naming and port inference + C04's design trees; every emitted "
+            "Hypothesis-generated hierarchies built to stress naming and port inference + C04's design trees + components "
+            "converted through their signatures; every emitted "
             "document parsed by an independent RTLIL reader and judged by a structural validity predicate; foreign "
             "instances compared with the descriptor",
             "Well-formedness is a universal statement about every output; the check generates the situations that make it "
             "hard (name clashes between signals, ports and submodules, private names, zero-width and unused ports, empty and "
             "nested-empty modules among non-empty siblings, values routed across branches, memories, auto-added and "
-            "same-named I/O ports, instances with extreme parameter values and awkward strings) and runs a validity "
+            "same-named I/O ports, aggregate-shaped signals sharing names, instances with extreme parameter values and awkward "
+            "strings, wiring.Component objects with arrayed and nested members converted without a port list) and runs a validity "
             "predicate over the parsed text: references, unique names, widths, slice bounds, dense port indices, exactly "
-            "one driver per non-pad bit, submodule port agreement, instantiation of every module, exact instance contents.",
+            "one driver per non-pad bit, submodule port agreement, instantiation of every module, write-port numbering and "
+            "mask widths per memory, exact instance contents.",
             "vlib/rtlil_read.py (grammar) and vlib/rtlil_check.py (predicate) are the trusted base; names without whitespace.",
             "DESIGN.md §3, §4 C07"),
 }
